@@ -47,12 +47,41 @@ Example refuted_retype_key_order :
                                          ("x", VInt 1)])]) false false] 4.
 Proof. vm_compute. repeat split; reflexivity. Qed.
 
-(* 1 = F-ID-SUBMS (genuine defect of the library).  _insert keys the store by the _id as given
-   and only then truncates datetimes to milliseconds in the stored copy: two datetimes in the
-   same millisecond are two keys, and both stored documents carry the same _id. *)
-Example refuted_submillisecond_ids :
-  refutes [OInsertOne (VDoc [("_id", VDate 1000 None)]);
-           OInsertOne (VDoc [("_id", VDate 1001 None)])] 1.
+(* WAS a counterexample, bit 1 = F-ID-SUBMS (genuine defect of the library, now repaired).
+   _insert used to key the store by the _id as given and only then truncate datetimes to
+   milliseconds in the stored copy: two datetimes in the same millisecond were two keys, and
+   both stored documents carried the same _id.  The store is now keyed by the normalised _id:
+   the second insert is rejected with DuplicateKeyError, the predicate holds and the history
+   is inside the guard. *)
+Definition now_holds (ops : list op) : Prop :=
+  c05_ok ops (model_obs false empty_coll ops) = true /\
+  modelled false empty_coll ops = true /\
+  c05_reasons ops (model_obs false empty_coll ops) = 0.
+
+Example submillisecond_ids_now_holds :
+  now_holds [OInsertOne (VDoc [("_id", VDate 1000 None)]);
+             OInsertOne (VDoc [("_id", VDate 1001 None)])] /\
+  map (fun ob : obs => fst (fst ob))
+      (model_obs false empty_coll [OInsertOne (VDoc [("_id", VDate 1000 None)]);
+                                   OInsertOne (VDoc [("_id", VDate 1001 None)])])
+  = [Ok (VDoc [("inserted_id", VDate 1000 None)]); Err EDup].
+Proof. vm_compute. repeat split; reflexivity. Qed.
+
+(* 1 = what is left of it: a SUCCESSFUL insert_one of an _id that the normalisation changes
+   (sub-millisecond, or aware datetime) returns the normalised _id, which is not the _id as
+   given: the clause `inserted_id = the _id of the document` of the predicate is false.  The
+   library is consistent here (the id handed out is the id stored); it is the predicate that
+   compares with the raw _id instead of the normalised one. *)
+Example refuted_inserted_id_normalised :
+  refutes [OInsertOne (VDoc [("_id", VDate 1001 None)])] 1 /\
+  model_obs false empty_coll [OInsertOne (VDoc [("_id", VDate 1001 None)])] =
+  [(Ok (VDoc [("inserted_id", VDate 1000 None)]),
+    [(VDate 1000 None, VDoc [("_id", VDate 1000 None)])],
+    VDoc [("_id_", VDoc [("key", VArr [VArr [VStr "_id"; VInt 1]]); ("v", VInt 2)])])].
+Proof. vm_compute. repeat split; reflexivity. Qed.
+
+Example refuted_inserted_id_aware :
+  refutes [OInsertOne (VDoc [("_id", VDate 0 (Some 0))])] 1.
 Proof. vm_compute. repeat split; reflexivity. Qed.
 
 (* 8 = F-ID-BOOL-NUM (the C01 finding F-BOOL-NUM seen through C05): True == 1 in the matcher,
@@ -88,12 +117,21 @@ Example refuted_non_wf_id :
            OInsertOne (VDoc [("_id", VDoc [("a", VInt 1); ("a", VInt 2)])])] 2.
 Proof. vm_compute. repeat split; reflexivity. Qed.
 
-(* 32 (+1) = outside the model: an aware datetime _id; the model answers EUnmodelled where the
-   predicate wants DuplicateKeyError.  (Not inside [modelled]; kept for the record.) *)
-Example refuted_unmodelled_id :
-  let ops := [OInsertOne (VDoc [("_id", VDate 0 None)]);
-              OInsertOne (VDoc [("_id", VDate 0 (Some 0))])] in
-  c05_ok ops (model_obs false empty_coll ops) = false /\
+(* WAS bit 32 (+1), outside the model: an aware datetime _id, on which the model answered
+   EUnmodelled where the predicate wants DuplicateKeyError.  The _id is now normalised (to the
+   naive UTC instant) before it is used as a key: the model decides the history, the duplicate
+   is rejected, the predicate holds, inside the guard. *)
+Example aware_id_now_holds :
+  now_holds [OInsertOne (VDoc [("_id", VDate 0 None)]);
+             OInsertOne (VDoc [("_id", VDate 0 (Some 0))])].
+Proof. vm_compute. repeat split; reflexivity. Qed.
+
+(* the other former member of bit 32: an array inside a sub-document _id.  Still outside the
+   model (EUnmodelled, store untouched), but the predicate holds on it and the guard no
+   longer excludes it. *)
+Example array_in_id_holds :
+  let ops := [OInsertOne (VDoc [("_id", VDoc [("a", VArr [VInt 1])])])] in
+  c05_ok ops (model_obs false empty_coll ops) = true /\
   modelled false empty_coll ops = false /\
-  c05_reasons ops (model_obs false empty_coll ops) = 33.
+  c05_reasons ops (model_obs false empty_coll ops) = 0.
 Proof. vm_compute. repeat split; reflexivity. Qed.
